@@ -145,6 +145,8 @@ pub struct Inst {
     hung: bool,
     /// number of requests sent (all instances of this process; for throughput figures)
     pub calls: u64,
+    /// when Some: every request sent is appended as [method, params]
+    pub recorded: Option<Vec<Value>>,
 }
 
 fn open_methods(dir: &Path) -> Result<jsonrpsee::Methods, String> {
@@ -167,7 +169,7 @@ impl Inst {
         init_process(dir);
         std::fs::create_dir_all(dir).expect("create instance dir");
         let methods = open_methods(dir).expect("open database");
-        Inst { dir: dir.to_path_buf(), _tmp: None, methods: Some(methods), last_events: vec![], next_id: 0, poisoned: false, hung: false, calls: 0 }
+        Inst { dir: dir.to_path_buf(), _tmp: None, methods: Some(methods), last_events: vec![], next_id: 0, poisoned: false, hung: false, calls: 0, recorded: None }
     }
 
     /// A fresh instance in its own temporary directory (removed when the instance is dropped).
@@ -188,6 +190,7 @@ impl Inst {
         let Some(methods) = self.methods.as_ref().cloned() else { return Err(RpcFail::Panic("instance closed".into())) };
         self.next_id += 1;
         self.calls += 1;
+        if let Some(rec) = self.recorded.as_mut() { rec.push(json!([method, params.clone()])); }
         let req = json!({"jsonrpc": "2.0", "id": self.next_id, "method": method, "params": params}).to_string();
         let _ = vh::drain();
         let _ = take_panic();
@@ -1250,6 +1253,13 @@ pub fn observe(inst: &mut Inst, u: &Universe) -> BTreeMap<String, Value> {
         }
     }
     o
+}
+
+/// The requests `observe` sends for this universe, as [method, params] pairs.
+pub fn observation_requests(run: &mut Run) -> Vec<Value> {
+    run.inst.recorded = Some(Vec::new());
+    let _ = run.observe();
+    run.inst.recorded.take().unwrap_or_default()
 }
 
 /// Keys on which two observations differ (with both values), in key order.
